@@ -410,6 +410,16 @@ def main(argv):
                 if summ is None:
                     if report.get("go_build_errors"):
                         raise FrameworkError("harness does not build against /repo:\n" + report["go_build_errors"][-1])
+                    # The harness builds but the run of the family died.  On the unchanged tree no family crashes, so a
+                    # crash (a Go panic out of the code under test, a generator step that must succeed and did not) means
+                    # that the property is no longer shown to hold: reported as a violation whose replay carries the log.
+                    ferr = report.get("family_errors") or [{}]
+                    flog = str(ferr[-1].get("log", ""))
+                    if "panic:" in flog or "goroutine " in flog or "staging step failed" in flog:
+                        violations.append({"kind": "family-crashed", "key": "family-crashed:" + name,
+                                           "desc": "family %s crashed: %s" % (name, flog[:1500]), "input": None,
+                                           "family": name, "found_input": False})
+                        continue
                     raise FrameworkError("family %s failed: %s" % (name, json.dumps(report.get("family_errors"))[-3000:]))
                 summ = prepare_family(fam_args, summ, cdir)
                 sres = eval_shards(cdir, summ.get("shards", []))
